@@ -43,9 +43,11 @@ CLAIMED = {
                      "get_positive_objects: every result is exactly one of TP / FP, TP exactly the correct ones in order (ghost prefix count), TN pairs re-wrapped; "
                      "evaluate_frame: call-site obligations that both critical filters receive the same parameters and the frame's transforms, and that pass/fail "
                      "sees the filtered lists; PassFailResult.evaluate: which lists, which matching mode, which thresholds.",
-                note="Filters are used through named contracts (result = function of all arguments; meaning: C10). get_negative_objects (FN/TN lists) is not "
-                     "under contract: the 'each critical ground truth exactly once' clause rests on the native harness (bounded) only. Metric branches of "
-                     "evaluate_frame are switched off in the verified configuration (pass/fail only).", ref="5/C03"),
+                note="Filters are used through named contracts (result = function of all arguments; meaning: C10). get_negative_objects is verified too: TN = ground "
+                     "truths of TN pairs then unmatched FP-labelled ones, FN = ground truths of failing pairs then unmatched ordinary ones, each judged at the "
+                     "threshold of the ground truth's label (ghost counts; DynamicObject.__eq__ as a named reflexive relation). The global 'each critical ground truth exactly "
+                     "once' is the composition of these list contracts (stated; end-to-end only by the bounded native harness). Metric branches of evaluate_frame are "
+                     "switched off in the verified configuration (pass/fail only).", ref="5/C03"),
     "C04": dict(text="The numeric core of Ap is verified for all list lengths: precision/recall from the cumulative TP weights (p_k = T_k/(k+1), r_k = T_k/G), the "
                      "interpolation (every curve point is a rank's (precision, recall) and dominates the precision of every higher rank; closing point at recall 0), "
                      "and the area sum (AP equals the sum over the interpolated curve, lies in [0,1] when precision is in [0,1] and recall non-decreasing in [0,1], "
